@@ -242,7 +242,10 @@ def run(P, C, tier):
             var = variant_of(g)
             srct = b.operand_term(b.blocks[bi]["t"]["args"][1], expand_vars=True)
             src = term_str(srct)
-            ok = var == "RoomList" and mir.has_call(srct, r"GraphDatabaseService::get_rooms_for_peer$") is not None
+            terms, bars = mir.flow_sources(b, srct, r"GraphDatabaseService::get_rooms_for_peer$")
+            stray = [x for x in terms if not x.endswith("Receiver::recv")]
+            ok = var == "RoomList" and bool(bars) and not stray
+            src = "%s via %s" % (sorted(bars), sorted(terms))
             C.ob("R4", "insert:" + owner, ok, body.loc(bi), "allowed_room.insert in arm %s from %s" % (var, src[:120]))
         elif body.id.endswith("RemotePeerHandle::add_allowed_room"):
             C.ob("R4", "insert:" + owner, True, body.loc(bi), "setter", nontrivial=False)
